@@ -1,314 +1,153 @@
 import Verif.Gen.Currency
+import Verif.Model.CurrencySpec
 import Verif.Lemmas.C18
 import Verif.Lemmas.F64
 import Verif.Lemmas.Zcn
 import Verif.Lemmas.Msgp
 /-! # C18 — currency arithmetic is exact or fails loudly
 
-Every theorem here is about the definitions in `Verif/Gen/Currency.lean`, which `go/xlate` REGENERATES from
-`core/currency/currency.go` before each build (bin/check deletes the file first). A change of the Go source changes
-the definitions; the theorems then hold of the new code or the build fails.
+Three layers:
 
-Shape of an integer spec: `f args = if <exact result representable> then .ok <exact result> else .err <kind>`, the
-exact result being computed in `Nat`/`Int` (no wrap-around) and embedded with `BitVec.ofNat 64` — below `2^64` that
-embedding is injective, so the returned bits are pinned. `.panic` never occurs (`no_panic`). -/
+* `Verif/Model/CurrencySpec.lean` — the hand-written specification: one canonical definition per function, the exact
+  result in ℕ/ℤ when it is representable and the function's error otherwise; independent of the Go source.
+* `Verif/Gen/Currency.lean` — REGENERATED from `core/currency/currency.go` by `go/xlate` before every build.
+* this file — the bridge theorems `Gen.f = Spec.f` (`addCoin_spec`, …: what the Go source says now IS the
+  specification), and the property theorems, proved once about the specification and transferred.
+
+The bridge theorems are proved by shape-independent tactics (`bridge_int`, `bridge_f64`, `bridge_dec` in
+`Verif/Lemmas`): unfold everything (including unexported Go helpers, via the generated `go_unfold_helpers`), split every
+conditional and call result on both sides, turn the path conditions of each leaf into linear arithmetic / facts about
+the decoded float / facts about `coeff·10^exp`, and decide. They do not look at how the Go function is written, so a
+behaviour-preserving rewrite (other overflow idiom, `math/bits`, reordered guards, `switch`, extracted helpers,
+renamed variables, explicit instead of named results) leaves them intact, while any change of behaviour makes a leaf
+unprovable. -/
+set_option linter.unusedSimpArgs false
 namespace Verif.Props.C18
 open Verif.GoSem Verif.F64 Verif.Dec Verif.Gen Verif.Gen.Currency Verif.Lemmas.C18 Verif.Lemmas.F64 Verif.Lemmas.Zcn
 open Verif.Msgp Verif.Lemmas.Msgp
+open Verif.Spec.Currency (Errs amount maxInt64 parseDec)
 
-/-- pins the set of translated functions: a function added to currency.go must get its theorems here -/
-theorem generated_functions : generatedFunctions =
+/-- the generated error values, as the error parameter of the specification -/
+def genErrs : Errs ErrKind where
+  negativeValue := .ErrNegativeValue
+  tooManyDecimals := .ErrTooManyDecimals
+  tooLarge := .ErrTooLarge
+  multOverflow := .ErrUint64MultOverflow
+  addOverflow := .ErrUint64AddOverflow
+  minusOverflow := .ErrUint64MinusOverflow
+  overflowsInt64 := .ErrUint64OverflowsInt64
+  int64Underflows := .ErrInt64UnderflowsUint64
+  float64Underflows := .ErrFloat64UnderflowsUint64
+  notANumber := .ErrNotANumber
+  divideByZero := .ErrDivideByZero
+
+/-- the messages of the generated error values are the ones the specification (and the model driver) uses -/
+theorem error_messages :
+    (Verif.Spec.Currency.msgErrs.negativeValue, Verif.Spec.Currency.msgErrs.tooManyDecimals, Verif.Spec.Currency.msgErrs.tooLarge,
+     Verif.Spec.Currency.msgErrs.multOverflow, Verif.Spec.Currency.msgErrs.addOverflow, Verif.Spec.Currency.msgErrs.minusOverflow,
+     Verif.Spec.Currency.msgErrs.overflowsInt64, Verif.Spec.Currency.msgErrs.int64Underflows,
+     Verif.Spec.Currency.msgErrs.float64Underflows, Verif.Spec.Currency.msgErrs.notANumber, Verif.Spec.Currency.msgErrs.divideByZero) =
+    (genErrs.negativeValue.msg, genErrs.tooManyDecimals.msg, genErrs.tooLarge.msg, genErrs.multOverflow.msg,
+     genErrs.addOverflow.msg, genErrs.minusOverflow.msg, genErrs.overflowsInt64.msg, genErrs.int64Underflows.msg,
+     genErrs.float64Underflows.msg, genErrs.notANumber.msg, genErrs.divideByZero.msg) := rfl
+
+/-- every function of currency.go was translated -/
+theorem all_translated : untranslated = [] := by decide
+
+/-- pins the exported API: a new exported function needs a specification and a bridge theorem here
+    (unexported helpers may come and go) -/
+theorem exported_functions : exportedFunctions =
     ["AddCoin", "AddInt64", "Coin_Float64", "Coin_Int64", "Coin_ToZCN", "DistributeCoin", "Float64ToCoin",
      "Int64ToCoin", "Min", "MinusCoin", "MinusInt64", "MultCoin", "MultFloat64", "ParseZCN"] := by decide
 
-/-! ## integer helpers -/
+/-- unfold the named generated definitions (plus unexported helpers and package variables, through the generated
+    `go_unfold_helpers`) and the specification; push call continuations into conditionals -/
+syntax "unfold_both" "[" Lean.Parser.Tactic.simpLemma,* "]" : tactic
+macro_rules
+  | `(tactic| unfold_both [$ls,*]) =>
+    `(tactic| (
+      simp only [$ls,*, Res.andThen,
+        Verif.Spec.Currency.addCoin, Verif.Spec.Currency.multCoin, Verif.Spec.Currency.minusCoin,
+        Verif.Spec.Currency.addInt64, Verif.Spec.Currency.minusInt64, Verif.Spec.Currency.distributeCoin,
+        Verif.Spec.Currency.int64ToCoin, Verif.Spec.Currency.coinInt64, Verif.Spec.Currency.min, genErrs]
+      go_unfold_helpers
+      try simp only [$ls,*, Res.andThen]
+      try simp only [Res.elim_ite, Res.elim_ok, Res.elim_err, Res.elim_panic]))
 
-theorem addCoin_spec (a b : Coin) :
-    AddCoin a b = if a.toNat + b.toNat < 2 ^ 64 then .ok (BitVec.ofNat 64 (a.toNat + b.toNat))
-      else .err .ErrUint64AddOverflow := by
-  have ha := a.isLt
-  have hb := b.isLt
-  unfold AddCoin
-  simp only [BitVec.lt_def, BitVec.toNat_add]
-  by_cases h : a.toNat + b.toNat < 2 ^ 64
-  · rw [if_neg (by omega), if_pos h]
-    exact congrArg Res.ok (BitVec.eq_of_toNat_eq (by simp))
-  · rw [if_pos (by omega), if_neg h]
+/-! ## bridges: integer helpers -/
 
-theorem multCoin_spec (c b : Coin) :
-    MultCoin c b = if c.toNat * b.toNat < 2 ^ 64 then .ok (BitVec.ofNat 64 (c.toNat * b.toNat))
-      else .err .ErrUint64MultOverflow := by
-  unfold MultCoin
-  by_cases hc0 : c = 0#64
-  · subst hc0; simp
-  · have hcpos := toNat_pos_of_ne_zero c hc0
-    simp only [ne_eq, hc0, not_false_eq_true, if_true, if_false]
-    have hmul : (c * b).toNat = (c.toNat * b.toNat) % 2 ^ 64 := BitVec.toNat_mul c b
-    by_cases h : c.toNat * b.toNat < 2 ^ 64
-    · have hq : (c * b) / c = b := by
-        apply BitVec.eq_of_toNat_eq
-        rw [BitVec.toNat_udiv, hmul, Nat.mod_eq_of_lt h, Nat.mul_div_cancel_left _ hcpos]
-      rw [if_neg (by simp [hq]), if_pos h]
-      exact congrArg Res.ok (BitVec.eq_of_toNat_eq (by rw [hmul]; simp))
-    · have hq : (c * b) / c ≠ b := by
-        intro heq
-        have h1 := congrArg BitVec.toNat heq
-        rw [BitVec.toNat_udiv, hmul] at h1
-        have hlt : (c.toNat * b.toNat) % 2 ^ 64 < c.toNat * b.toNat := by omega
-        have h2 : (c.toNat * b.toNat) % 2 ^ 64 / c.toNat < b.toNat := Nat.div_lt_of_lt_mul hlt
-        omega
-      rw [if_pos hq, if_neg h]
-
-theorem minusCoin_spec (c b : Coin) :
-    MinusCoin c b = if b.toNat ≤ c.toNat then .ok (BitVec.ofNat 64 (c.toNat - b.toNat))
-      else .err .ErrUint64MinusOverflow := by
-  have hc := c.isLt
-  have hb := b.isLt
-  unfold MinusCoin
-  simp only [gt_iff_lt, BitVec.lt_def]
-  by_cases h : b.toNat ≤ c.toNat
-  · rw [if_neg (by omega), if_pos h]
-    refine congrArg Res.ok (BitVec.eq_of_toNat_eq ?_)
-    simp [BitVec.toNat_sub]
-    omega
-  · rw [if_pos (by omega), if_neg h]
-
-/-- `int64 → Coin`: the signed value when it is non-negative -/
-theorem int64ToCoin_spec (a : I64) :
-    Int64ToCoin a = if a.toInt < 0 then .err .ErrInt64UnderflowsUint64 else .ok (BitVec.ofNat 64 a.toInt.toNat) := by
-  unfold Int64ToCoin
-  simp only [slt_zero_iff]
-  by_cases h : a.toInt < 0
-  · rw [if_pos h, if_pos h]
-  · rw [if_neg h, if_neg h, toInt_nonneg_toNat a (by omega)]
-    simp
-
-/-- `Coin → int64`: the result's signed value is the amount, when it is below `2^63` -/
-theorem coinInt64_spec (c : Coin) :
-    Coin_Int64 c = if c.toNat < 2 ^ 63 then .ok (BitVec.ofInt 64 c.toNat) else .err .ErrUint64OverflowsInt64 := by
-  have := c.isLt
-  unfold Coin_Int64
-  simp only [slt_zero_iff]
-  rw [BitVec.toInt_eq_toNat_cond]
-  by_cases h : c.toNat < 2 ^ 63
-  · rw [if_neg (by split <;> omega), if_pos h]
-    exact congrArg Res.ok (BitVec.eq_of_toNat_eq (by simp))
-  · rw [if_pos (by split <;> omega), if_neg h]
-
-/-- the embedding used in `coinInt64_spec` is faithful: the returned int64 reads back as the amount -/
-theorem coinInt64_value (c : Coin) (h : c.toNat < 2 ^ 63) : (BitVec.ofInt 64 (c.toNat : Int)).toInt = c.toNat := by
-  rw [BitVec.toInt_ofInt]
-  simp only [Int.bmod]
-  omega
-
-theorem addInt64_spec (c : Coin) (a : I64) :
-    AddInt64 c a = if a.toInt < 0 then .err .ErrInt64UnderflowsUint64
-      else if c.toNat + a.toInt.toNat < 2 ^ 64 then .ok (BitVec.ofNat 64 (c.toNat + a.toInt.toNat))
-      else .err .ErrUint64AddOverflow := by
-  unfold AddInt64
-  rw [int64ToCoin_spec]
-  by_cases h : a.toInt < 0
-  · simp only [if_pos h]
-  · simp only [if_neg h, addCoin_spec, toNat_ofNat_toInt a h]
-
-theorem minusInt64_spec (c : Coin) (a : I64) :
-    MinusInt64 c a = if a.toInt < 0 then .err .ErrInt64UnderflowsUint64
-      else if a.toInt.toNat ≤ c.toNat then .ok (BitVec.ofNat 64 (c.toNat - a.toInt.toNat))
-      else .err .ErrUint64MinusOverflow := by
-  unfold MinusInt64
-  rw [int64ToCoin_spec]
-  by_cases h : a.toInt < 0
-  · simp only [if_pos h]
-  · simp only [if_neg h, minusCoin_spec, toNat_ofNat_toInt a h]
-
-/-- quotient and remainder are exact; a negative or zero number of parts is an error, never a panic -/
+theorem addCoin_spec (a b : Coin) : AddCoin a b = Verif.Spec.Currency.addCoin genErrs a b := by
+  unfold_both [AddCoin]; bridge_int
+theorem multCoin_spec (a b : Coin) : MultCoin a b = Verif.Spec.Currency.multCoin genErrs a b := by
+  unfold_both [MultCoin]; bridge_int
+theorem minusCoin_spec (a b : Coin) : MinusCoin a b = Verif.Spec.Currency.minusCoin genErrs a b := by
+  unfold_both [MinusCoin]; bridge_int
+theorem int64ToCoin_spec (a : I64) : Int64ToCoin a = Verif.Spec.Currency.int64ToCoin genErrs a := by
+  unfold_both [Int64ToCoin]; bridge_int
+theorem coinInt64_spec (c : Coin) : Coin_Int64 c = Verif.Spec.Currency.coinInt64 genErrs c := by
+  unfold_both [Coin_Int64]; bridge_int
+theorem addInt64_spec (c : Coin) (a : I64) : AddInt64 c a = Verif.Spec.Currency.addInt64 genErrs c a := by
+  unfold_both [AddInt64, Int64ToCoin, AddCoin]; bridge_int
+theorem minusInt64_spec (c : Coin) (a : I64) : MinusInt64 c a = Verif.Spec.Currency.minusInt64 genErrs c a := by
+  unfold_both [MinusInt64, Int64ToCoin, MinusCoin]; bridge_int
 theorem distribute_spec (c : Coin) (a : I64) :
-    DistributeCoin c a = if a.toInt < 0 then .err .ErrInt64UnderflowsUint64
-      else if a.toInt = 0 then .err .ErrDivideByZero
-      else .ok (BitVec.ofNat 64 (c.toNat / a.toInt.toNat), BitVec.ofNat 64 (c.toNat % a.toInt.toNat)) := by
-  unfold DistributeCoin
-  rw [int64ToCoin_spec]
-  by_cases h : a.toInt < 0
-  · simp only [if_pos h]
-  · simp only [if_neg h]
-    have hn := toInt_nonneg_toNat a (by omega)
-    rw [hn, ofNat_toNat64]
-    by_cases h0 : a = 0#64
-    · subst h0; simp
-    · have hi : ¬ a.toInt = 0 := by
-        intro hz
-        apply h0
-        apply BitVec.eq_of_toNat_eq
-        rw [← hn, hz]; rfl
-      simp only [if_neg h0, if_neg hi]
-      refine congrArg Res.ok (Prod.ext ?_ ?_)
-      · apply BitVec.eq_of_toNat_eq
-        rw [BitVec.toNat_udiv, BitVec.toNat_ofNat,
-          Nat.mod_eq_of_lt (Nat.lt_of_le_of_lt (Nat.div_le_self _ _) c.isLt)]
-      · apply BitVec.eq_of_toNat_eq
-        rw [BitVec.toNat_umod, BitVec.toNat_ofNat,
-          Nat.mod_eq_of_lt (Nat.lt_of_le_of_lt (Nat.mod_le _ _) c.isLt)]
+    DistributeCoin c a = Verif.Spec.Currency.distributeCoin genErrs c a := by
+  unfold_both [DistributeCoin, Int64ToCoin]; bridge_int
+theorem min_spec (a b : Coin) : Currency.Min a b = Verif.Spec.Currency.min a b := by
+  unfold_both [Currency.Min]; bridge_int
 
-theorem min_spec (a b : Coin) : Currency.Min a b = .ok (BitVec.ofNat 64 (min a.toNat b.toNat)) := by
-  unfold Currency.Min
-  simp only [BitVec.lt_def]
-  by_cases h : a.toNat < b.toNat
-  · rw [if_pos h, Nat.min_eq_left (by omega)]; simp
-  · rw [if_neg h, Nat.min_eq_right (by omega)]; simp
-
-
-/-! ## float helpers
+/-! ## bridges: float helpers
 
 Floats are the binary64 model `Verif/Model/F64.lean` (value = `(-1)^neg · m · 2^e`, operations = exact result rounded
 to nearest-even, comparisons IEEE); the model is pinned to the compiled Go arithmetic by the correspondence run. -/
 
-/-- the exact outcome of converting a float to a coin: the value truncated toward zero when `0 ≤ x < 2^64` (`-0`
-    counts as 0); an error for NaN, ±∞, every negative non-zero value and every value `≥ 2^64` -/
-def f2cSpec (x : F64) : Res ErrKind Coin :=
-  match x.val with
-  | .nan => .err .ErrNotANumber
-  | .inf true => .err .ErrFloat64UnderflowsUint64
-  | .inf false => .err .ErrTooLarge
-  | .fin s m e =>
-    if s = true ∧ m ≠ 0 then .err .ErrFloat64UnderflowsUint64
-    else if 2 ^ 64 ≤ truncNat m e then .err .ErrTooLarge
-    else .ok (BitVec.ofNat 64 (truncNat m e))
+theorem float64ToCoin_spec (x : F64) : Float64ToCoin x = Verif.Spec.Currency.float64ToCoin genErrs x := by
+  simp only [Float64ToCoin, Verif.Spec.Currency.float64ToCoin, genErrs]
+  go_unfold_helpers
+  bridge_f64 x
 
-theorem float64ToCoin_spec (x : F64) : Float64ToCoin x = f2cSpec x := by
-  have h1 := lt_zero_iff x
-  have h2 := eq_self_false_iff x
-  have h3 := le_C64_iff x
-  unfold Float64ToCoin f2cSpec
-  cases h : x.val with
-  | nan =>
-    rw [h] at h1 h3
-    rw [if_neg (by rw [h1]; simp), if_pos (h2.mpr h)]
-  | inf s =>
-    rw [h] at h1 h3
-    have hn : ¬ (F64.eq x x = false) := by rw [h2, h]; simp
-    cases s
-    · rw [if_neg (by rw [h1]; simp), if_neg hn, if_pos (by rw [h3])]
-    · rw [if_pos (by rw [h1])]
-  | fin s m e =>
-    rw [h] at h1 h3
-    have hn : ¬ (F64.eq x x = false) := by rw [h2, h]; simp
-    simp only []
-    by_cases hs : s = true ∧ m ≠ 0
-    · rw [if_pos (h1.mpr hs), if_pos hs]
-    · rw [if_neg (by rw [h1]; exact hs), if_neg hn, if_neg hs]
-      by_cases hr : 2 ^ 64 ≤ truncNat m e
-      · have hsf : s = false := by
-          cases s
-          · rfl
-          · exfalso
-            have hm : m = 0 := Classical.byContradiction (fun hne => hs ⟨rfl, hne⟩)
-            subst hm
-            have : truncNat 0 e = 0 := by unfold truncNat; split <;> simp
-            omega
-        rw [if_pos (h3.mpr ⟨hsf, hr⟩), if_pos hr]
-      · rw [if_neg (by rw [h3]; intro hc; exact hr hc.2), if_neg hr,
-          toUInt64_of_fin x s m e h hs (by omega)]
+/-- the `ErrUint64OverflowsFloat64` branch is dead: the product of two values that are not below zero is not below
+    zero; what remains is `Float64ToCoin` of the IEEE product -/
+theorem multFloat64_spec (c : Coin) (a : F64) : MultFloat64 c a = Verif.Spec.Currency.multFloat64 genErrs c a := by
+  simp only [MultFloat64, Verif.Spec.Currency.multFloat64, Verif.Spec.Currency.fzero]
+  go_unfold_helpers
+  try simp only [float64ToCoin_spec]
+  (repeat' split) <;> first
+    | rfl
+    | (exfalso; simp_all [mul_not_lt_zero, ofUInt64_not_lt_zero]; done)
+    | (simp_all [mul_not_lt_zero, ofUInt64_not_lt_zero, genErrs]; done)
 
-theorem multFloat64_spec (c : Coin) (a : F64) :
-    MultFloat64 c a = if F64.lt a Z = true then .err .ErrNegativeValue
-      else Float64ToCoin (F64.mul (F64.ofUInt64 c) a) := by
-  unfold MultFloat64
-  by_cases h : F64.lt a Z = true
-  · rw [if_pos h, if_pos h]
-  · rw [if_neg h, if_neg h]
-    simp only []
-    have := mul_not_lt_zero (F64.ofUInt64 c) a (ofUInt64_not_lt_zero c) (by simpa using h)
-    rw [if_neg (by simp [this])]
+/-- `Coin.Float64` never fails: its error branch is dead (`float64(c)` is never below zero) -/
+theorem coinFloat64_spec (c : Coin) : Coin_Float64 c = Verif.Spec.Currency.coinFloat64 c := by
+  simp only [Coin_Float64, Verif.Spec.Currency.coinFloat64]
+  go_unfold_helpers
+  (repeat' split) <;> first
+    | rfl
+    | (exfalso; simp_all [ofUInt64_not_lt_zero]; done)
+    | (simp_all [ofUInt64_not_lt_zero, F64.ofUInt64]; done)
 
-theorem coinFloat64_spec (c : Coin) : Coin_Float64 c = .ok (roundNE false c.toNat 1) := by
-  unfold Coin_Float64
-  simp only []
-  rw [if_neg (by simp [ofUInt64_not_lt_zero c])]
-  rfl
-
-/-! ## ZCN amounts (shopspring/decimal)
+/-! ## bridges: ZCN amounts (shopspring/decimal)
 
 `decimal.NewFromFloat(x)` is not modelled: the generated `ParseZCN` takes the decimal the library returned as its
 second argument (after an explicit `.panic` where the library panics). -/
 
-def maxInt64 : Int := 9223372036854775807
-
-/-- `d · 10^10` for a decimal with at most ten decimal places -/
-def amount (d : Dec) : Int := d.coeff * 10 ^ (d.exp + 10).toNat
-
-/-- ParseZCN as a function of the decimal the library produced for the float -/
-def parseDec (d : Dec) : Res ErrKind Coin :=
-  if d.coeff < 0 then .err .ErrNegativeValue
-  else if d.exp < -10 then .err .ErrTooManyDecimals
-  else if maxInt64 < amount d then .err .ErrTooLarge
-  else .ok (BitVec.ofNat 64 (amount d).toNat)
-
-theorem parseZCN_spec (x : F64) (d : Dec) :
-    ParseZCN x d = match x.val with
-      | .nan => .err .ErrNotANumber
-      | .inf true => .err .ErrNegativeValue
-      | .inf false => .err .ErrTooLarge
-      | .fin _ _ _ => parseDec d := by
-  have h1 := lt_zero_iff x
-  have h2 := eq_self_false_iff x
-  have h3 := isInf_zero_iff x
-  have h4 := isNaN_iff x
-  unfold ParseZCN
-  cases h : x.val with
-  | nan => rw [if_pos (h2.mpr h)]
-  | inf s =>
-    have hn : ¬ (F64.eq x x = false) := by rw [h2, h]; simp
-    rw [if_neg hn, if_pos (h3.mpr ⟨s, h⟩)]
-    rw [h] at h1
-    cases s
-    · rw [if_neg (by rw [h1]; simp)]
-    · rw [if_pos (by rw [h1])]
+theorem parseZCN_spec (x : F64) (d : Dec) : ParseZCN x d = Verif.Spec.Currency.parseZCN genErrs x d := by
+  simp only [ParseZCN, Verif.Spec.Currency.parseZCN, Verif.Spec.Currency.parseDec, genErrs]
+  go_unfold_helpers
+  cases hv : F64.val x with
+  | nan => f64_norm hv
+  | inf s => cases s <;> f64_norm hv
   | fin s m e =>
-    have hn : ¬ (F64.eq x x = false) := by rw [h2, h]; simp
-    have hi : ¬ (F64.isInf x (0 : Int) = true) := by rw [h3, h]; simp
-    have hnan : ¬ (F64.isNaN x = true) := by rw [h4, h]; simp
-    rw [if_neg hn, if_neg hi, if_neg (by simp [hi, hnan])]
-    delta Dec.sign Dec.exponent Dec.shift
-    simp only [parseDec, sign_eq_neg_one_iff]
-    by_cases hneg : d.coeff < 0
-    · rw [if_pos hneg, if_pos hneg]
-    · rw [if_neg hneg, if_neg hneg]
-      by_cases hexp : d.exp < -10
-      · rw [if_pos hexp, if_pos hexp]
-      · rw [if_neg hexp, if_neg hexp, if_neg (by omega)]
-        have hmin : min (d.exp + 10) 0 = 0 := by omega
-        have hgt : Dec.greaterThan ⟨d.coeff, d.exp + 10⟩ maxDecimal = true ↔ maxInt64 < amount d := by
-          rw [maxDecimal_eq]
-          simp only [Dec.greaterThan, hmin, decide_eq_true_eq, amount, maxInt64]
-          simp
-        by_cases hbig : maxInt64 < amount d
-        · rw [if_pos (hgt.mpr hbig), if_pos hbig]
-        · rw [if_neg (by rw [hgt]; exact hbig), if_neg hbig]
-          have hiv : Dec.intValue ⟨d.coeff, d.exp + 10⟩ = amount d := by
-            simp only [Dec.intValue, amount]
-            rw [if_pos (by omega)]
-          simp only [Dec.intPart, hiv]
-          have hnn : 0 ≤ amount d := by
-            unfold amount
-            exact Int.mul_nonneg (by omega) (Int.le_of_lt (Int.pow_pos (by decide)))
-          obtain ⟨k, hk⟩ : ∃ k : Nat, amount d = (k : Int) := ⟨(amount d).toNat, by omega⟩
-          rw [hk, BitVec.ofInt_natCast]
-          simp
+    f64_norm hv
+    bridge_dec
 
-theorem toZCN_spec (c : Coin) :
-    Coin_ToZCN c = if 2 ^ 63 ≤ c.toNat then .err .ErrTooLarge else .ok (roundNE false c.toNat (10 ^ 10)) := by
-  have hlt := c.isLt
-  unfold Coin_ToZCN
-  simp only [gt_iff_lt, BitVec.lt_def]
-  by_cases h : 2 ^ 63 ≤ c.toNat
-  · rw [if_pos (by simp; omega), if_pos h]
-  · rw [if_neg (by simp; omega), if_neg h]
-    have hi : c.toInt = (c.toNat : Int) := by
-      rw [BitVec.toInt_eq_toNat_cond]; split <;> omega
-    simp only [Dec.float64, Dec.new, hi]
-    rw [if_neg (by omega)]
-    have hnn : ¬ ((c.toNat : Int) < 0) := by omega
-    simp [hnn]
+theorem toZCN_spec (c : Coin) : Coin_ToZCN c = Verif.Spec.Currency.toZCN genErrs c := by
+  simp only [Coin_ToZCN, Verif.Spec.Currency.toZCN, genErrs]
+  go_unfold_helpers
+  (repeat' split) <;> first
+    | rfl
+    | (exfalso; int_norm; omega)
+    | (rw [float64_new_neg10 c (by int_norm; omega)])
 
 /-- no trailing zero in the coefficient; zero is `0·10^0` (what `decimal.NewFromFloat` returns) -/
 def Dec.normal (d : Dec) : Prop := d.coeff % 10 ≠ 0 ∨ d = ⟨0, 0⟩
@@ -348,7 +187,7 @@ structure ShortestRT (x : F64) (d : Dec) : Prop where
 theorem zcn_roundtrip (c : Coin) (h15 : ∃ C j : Nat, c.toNat = C * 10 ^ j ∧ C < 10 ^ 15) (hr : c.toNat < 2 ^ 63) :
     ∃ z, Coin_ToZCN c = .ok z ∧ ∀ d, ShortestRT z d → ParseZCN z d = .ok c := by
   refine ⟨roundNE false c.toNat (10 ^ 10), ?_, ?_⟩
-  · rw [toZCN_spec, if_neg (by omega)]
+  · rw [toZCN_spec]; unfold Verif.Spec.Currency.toZCN; rw [if_neg (by omega)]
   · intro d hs
     by_cases hc0 : c.toNat = 0
     · -- the zero amount: the float is +0, its shortest decimal in normal form is 0·10^0
@@ -360,7 +199,7 @@ theorem zcn_roundtrip (c : Coin) (h15 : ∃ C j : Nat, c.toNat = C * 10 ^ j ∧ 
         rcases hs.normal with h | h
         · rw [hco] at h; simp at h
         · exact h
-      rw [parseZCN_spec, hz, hd]
+      rw [parseZCN_spec]; unfold Verif.Spec.Currency.parseZCN; rw [hz, hd]
       have : c = 0#64 := BitVec.eq_of_toNat_eq (by simpa using hc0)
       rw [this]; decide
     · have hN : 0 < c.toNat := by omega
@@ -376,17 +215,18 @@ theorem zcn_roundtrip (c : Coin) (h15 : ∃ C j : Nat, c.toNat = C * 10 ^ j ∧ 
         omega
       have hd := shortest_unique c.toNat hN c.isLt C' (i + j) hNC hC'15 hC'10 d hs.rt hs.normal hs.shortest
       obtain ⟨m, e, hz⟩ := roundNE_val_fin false c.toNat (10 ^ 10) (mag_c_bounds c.toNat hN c.isLt).2
-      rw [parseZCN_spec, hz, hd]
+      rw [parseZCN_spec]; unfold Verif.Spec.Currency.parseZCN; rw [hz, hd]
+      simp only []
       have hamt : amount ⟨(C' : ℤ), ((i + j : ℕ) : ℤ) - 10⟩ = (c.toNat : ℤ) := by
         unfold amount
         have hexp : ((((i + j : ℕ) : ℤ) - 10 + 10).toNat) = i + j := by omega
         simp only [hexp]
         rw [hNC]; push_cast; ring
-      unfold parseDec
+      unfold Verif.Spec.Currency.parseDec
       rw [hamt]
       simp only []
       rw [if_neg (by omega), if_neg (by omega), if_neg (by unfold maxInt64; omega)]
-      simp
+      simp [genErrs]
 
 /-- the hypotheses of `zcn_roundtrip` are satisfiable by a non-trivial amount: 1.5 ZCN -/
 example : (∃ C j : Nat, (15000000000#64 : Coin).toNat = C * 10 ^ j ∧ C < 10 ^ 15) ∧ (15000000000#64 : Coin).toNat < 2 ^ 63 :=
@@ -414,43 +254,59 @@ theorem shortestRT_exists (c : Coin) (hc : 0 < c.toNat) (h15 : ∃ C j : Nat, c.
 
 /-! ## no operation panics -/
 
+/-- the specification never panics (it has no `.panic` leaf) … -/
+theorem spec_no_panic {ε : Type} (E : Errs ε) :
+    (∀ a b, Verif.Spec.Currency.addCoin E a b ≠ .panic) ∧ (∀ a b, Verif.Spec.Currency.multCoin E a b ≠ .panic) ∧
+    (∀ a b, Verif.Spec.Currency.minusCoin E a b ≠ .panic) ∧ (∀ c a, Verif.Spec.Currency.addInt64 E c a ≠ .panic) ∧
+    (∀ c a, Verif.Spec.Currency.minusInt64 E c a ≠ .panic) ∧ (∀ c a, Verif.Spec.Currency.distributeCoin E c a ≠ .panic) ∧
+    (∀ a, Verif.Spec.Currency.int64ToCoin E a ≠ .panic) ∧ (∀ c, Verif.Spec.Currency.coinInt64 E c ≠ .panic) ∧
+    (∀ a b, (Verif.Spec.Currency.min a b : Res ε U64) ≠ .panic) ∧ (∀ x, Verif.Spec.Currency.float64ToCoin E x ≠ .panic) ∧
+    (∀ c a, Verif.Spec.Currency.multFloat64 E c a ≠ .panic) ∧ (∀ c, (Verif.Spec.Currency.coinFloat64 c : Res ε F64) ≠ .panic) ∧
+    (∀ c, Verif.Spec.Currency.toZCN E c ≠ .panic) ∧ (∀ x d, Verif.Spec.Currency.parseZCN E x d ≠ .panic) := by
+  have hf : ∀ x, Verif.Spec.Currency.float64ToCoin E x ≠ .panic := by
+    intro x; unfold Verif.Spec.Currency.float64ToCoin
+    (repeat' split) <;> simp
+  refine ⟨?_, ?_, ?_, ?_, ?_, ?_, ?_, ?_, ?_, hf, ?_, ?_, ?_, ?_⟩
+  · intro a b; unfold Verif.Spec.Currency.addCoin; split <;> simp
+  · intro a b; unfold Verif.Spec.Currency.multCoin; split <;> simp
+  · intro a b; unfold Verif.Spec.Currency.minusCoin; split <;> simp
+  · intro a b; unfold Verif.Spec.Currency.addInt64; (repeat' split) <;> simp
+  · intro a b; unfold Verif.Spec.Currency.minusInt64; (repeat' split) <;> simp
+  · intro a b; unfold Verif.Spec.Currency.distributeCoin; (repeat' split) <;> simp
+  · intro a; unfold Verif.Spec.Currency.int64ToCoin; split <;> simp
+  · intro a; unfold Verif.Spec.Currency.coinInt64; split <;> simp
+  · intro a b; unfold Verif.Spec.Currency.min; simp
+  · intro c a; unfold Verif.Spec.Currency.multFloat64; split
+    · simp
+    · exact hf _
+  · intro c; unfold Verif.Spec.Currency.coinFloat64; simp
+  · intro c; unfold Verif.Spec.Currency.toZCN; split <;> simp
+  · intro x d; unfold Verif.Spec.Currency.parseZCN Verif.Spec.Currency.parseDec
+    (repeat' split) <;> simp
+
+/-- … and so does the code: none of the 14 generated functions returns `.panic` for any input -/
 theorem no_panic :
     (∀ a b, AddCoin a b ≠ .panic) ∧ (∀ c b, MultCoin c b ≠ .panic) ∧ (∀ c b, MinusCoin c b ≠ .panic) ∧
     (∀ c a, AddInt64 c a ≠ .panic) ∧ (∀ c a, MinusInt64 c a ≠ .panic) ∧ (∀ c a, DistributeCoin c a ≠ .panic) ∧
     (∀ a, Int64ToCoin a ≠ .panic) ∧ (∀ c, Coin_Int64 c ≠ .panic) ∧ (∀ a b, Currency.Min a b ≠ .panic) ∧
     (∀ x, Float64ToCoin x ≠ .panic) ∧ (∀ c a, MultFloat64 c a ≠ .panic) ∧ (∀ c, Coin_Float64 c ≠ .panic) ∧
     (∀ c, Coin_ToZCN c ≠ .panic) ∧ (∀ x d, ParseZCN x d ≠ .panic) := by
-  have hf : ∀ x, Float64ToCoin x ≠ .panic := by
-    intro x; rw [float64ToCoin_spec]; unfold f2cSpec
-    split
-    · simp
-    · simp
-    · simp
-    · split
-      · simp
-      · split <;> simp
-  refine ⟨?_, ?_, ?_, ?_, ?_, ?_, ?_, ?_, ?_, hf, ?_, ?_, ?_, ?_⟩
-  · intro a b; rw [addCoin_spec]; split <;> simp
-  · intro a b; rw [multCoin_spec]; split <;> simp
-  · intro a b; rw [minusCoin_spec]; split <;> simp
-  · intro a b; rw [addInt64_spec]; (repeat' split) <;> simp
-  · intro a b; rw [minusInt64_spec]; (repeat' split) <;> simp
-  · intro a b; rw [distribute_spec]; (repeat' split) <;> simp
-  · intro a; rw [int64ToCoin_spec]; split <;> simp
-  · intro a; rw [coinInt64_spec]; split <;> simp
-  · intro a b; rw [min_spec]; simp
-  · intro c a; rw [multFloat64_spec]; split
-    · simp
-    · exact hf _
-  · intro c; rw [coinFloat64_spec]; simp
-  · intro c; rw [toZCN_spec]; split <;> simp
-  · intro x d; rw [parseZCN_spec]
-    split
-    · simp
-    · simp
-    · simp
-    · unfold parseDec
-      (repeat' split) <;> simp
+  obtain ⟨h1, h2, h3, h4, h5, h6, h7, h8, h9, h10, h11, h12, h13, h14⟩ := spec_no_panic genErrs
+  refine ⟨?_, ?_, ?_, ?_, ?_, ?_, ?_, ?_, ?_, ?_, ?_, ?_, ?_, ?_⟩
+  · intro a b; rw [addCoin_spec]; exact h1 a b
+  · intro a b; rw [multCoin_spec]; exact h2 a b
+  · intro a b; rw [minusCoin_spec]; exact h3 a b
+  · intro a b; rw [addInt64_spec]; exact h4 a b
+  · intro a b; rw [minusInt64_spec]; exact h5 a b
+  · intro a b; rw [distribute_spec]; exact h6 a b
+  · intro a; rw [int64ToCoin_spec]; exact h7 a
+  · intro a; rw [coinInt64_spec]; exact h8 a
+  · intro a b; rw [min_spec]; exact h9 a b
+  · intro x; rw [float64ToCoin_spec]; exact h10 x
+  · intro c a; rw [multFloat64_spec]; exact h11 c a
+  · intro c; rw [coinFloat64_spec]; exact h12 c
+  · intro c; rw [toZCN_spec]; exact h13 c
+  · intro x d; rw [parseZCN_spec]; exact h14 x d
 
 -- non-vacuity / sanity instances (closed terms, evaluated by the kernel)
 example : MultCoin 4294967296#64 4294967296#64 = .err .ErrUint64MultOverflow := by decide
@@ -458,7 +314,7 @@ example : MultCoin 4294967295#64 4294967297#64 = .ok 18446744073709551615#64 := 
 example : DistributeCoin 10#64 3#64 = .ok (3#64, 1#64) := by decide
 example : DistributeCoin 10#64 0#64 = .err .ErrDivideByZero := by decide
 example : Dec.normal ⟨15, -1⟩ := Or.inl (by decide)
-example : parseDec ⟨15, -1⟩ = .ok 15000000000#64 := by decide
+example : parseDec genErrs ⟨15, -1⟩ = .ok 15000000000#64 := by decide
 example : ParseZCN (F64.mk 0x3ff8000000000000#64) ⟨15, -1⟩ = .ok 15000000000#64 := by decide
 example : Float64ToCoin (F64.mk 0x43efffffffffffff#64) = .ok 18446744073709549568#64 := by decide +kernel
 example : Float64ToCoin (F64.mk 0x43f0000000000000#64) = .err .ErrTooLarge := by decide +kernel
@@ -481,23 +337,27 @@ theorem no_silent_wrap_int :
   refine ⟨?_, ?_, ?_, ?_, ?_, ?_, ?_, ?_, ?_⟩
   · intro a b v h
     rw [addCoin_spec] at h
+    simp only [Verif.Spec.Currency.addCoin, genErrs] at h
     split at h
     · cases h; simp; omega
     · cases h
   · intro a b v h
     rw [multCoin_spec] at h
+    simp only [Verif.Spec.Currency.multCoin, genErrs] at h
     split at h
     · rename_i hlt; cases h; simp; exact hlt
     · cases h
   · intro a b v h
     have := a.isLt
     rw [minusCoin_spec] at h
+    simp only [Verif.Spec.Currency.minusCoin, genErrs] at h
     split at h
     · cases h; simp; omega
     · cases h
   · intro c a v h
     have := c.isLt
     rw [addInt64_spec] at h
+    simp only [Verif.Spec.Currency.addInt64, genErrs] at h
     split at h
     · cases h
     · split at h
@@ -506,6 +366,7 @@ theorem no_silent_wrap_int :
   · intro c a v h
     have := c.isLt
     rw [minusInt64_spec] at h
+    simp only [Verif.Spec.Currency.minusInt64, genErrs] at h
     split at h
     · cases h
     · split at h
@@ -514,6 +375,7 @@ theorem no_silent_wrap_int :
   · intro c a q r h
     have hc := c.isLt
     rw [distribute_spec] at h
+    simp only [Verif.Spec.Currency.distributeCoin, genErrs] at h
     split at h
     · cases h
     · split at h
@@ -540,6 +402,7 @@ theorem no_silent_wrap_int :
   · intro a v h
     have := a.isLt
     rw [int64ToCoin_spec] at h
+    simp only [Verif.Spec.Currency.int64ToCoin, genErrs] at h
     split at h
     · cases h
     · cases h
@@ -550,6 +413,7 @@ theorem no_silent_wrap_int :
       split <;> split at hnn <;> omega
   · intro c v h
     rw [coinInt64_spec] at h
+    simp only [Verif.Spec.Currency.coinInt64, genErrs] at h
     split at h
     · rename_i hlt; cases h; exact coinInt64_value c hlt
     · cases h
@@ -557,6 +421,7 @@ theorem no_silent_wrap_int :
     have := a.isLt
     have := b.isLt
     rw [min_spec] at h
+    simp only [Verif.Spec.Currency.min, genErrs] at h
     cases h
     simp
     omega
@@ -567,14 +432,14 @@ theorem no_silent_wrap_int :
 theorem no_saturation_float :
     (∀ x v, Float64ToCoin x = .ok v →
       ∃ s m e, x.val = .fin s m e ∧ (s = false ∨ m = 0) ∧ truncNat m e < 2 ^ 64 ∧ v.toNat = truncNat m e) ∧
-    (∀ c a v, MultFloat64 c a = .ok v → F64.lt a Z = false ∧
+    (∀ c a v, MultFloat64 c a = .ok v → F64.lt a Verif.Spec.Currency.fzero = false ∧
       ∃ s m e, (F64.mul (F64.ofUInt64 c) a).val = .fin s m e ∧ (s = false ∨ m = 0) ∧ truncNat m e < 2 ^ 64 ∧
         v.toNat = truncNat m e) := by
   have hf : ∀ x v, Float64ToCoin x = .ok v →
       ∃ s m e, x.val = .fin s m e ∧ (s = false ∨ m = 0) ∧ truncNat m e < 2 ^ 64 ∧ v.toNat = truncNat m e := by
     intro x v h
     rw [float64ToCoin_spec] at h
-    unfold f2cSpec at h
+    simp only [Verif.Spec.Currency.float64ToCoin, genErrs] at h
     split at h
     · cases h
     · cases h
@@ -597,9 +462,11 @@ theorem no_saturation_float :
   refine ⟨hf, ?_⟩
   intro c a v h
   rw [multFloat64_spec] at h
+  unfold Verif.Spec.Currency.multFloat64 at h
   split at h
   · cases h
   · rename_i hlt
+    rw [← float64ToCoin_spec] at h
     exact ⟨by simpa using hlt, hf _ _ h⟩
 
 /-! ## msgp codec of `Coin` (currency_gen.go)
